@@ -93,7 +93,9 @@ VecOK(r) ==
     /\ r.ctors = r.n /\ r.cap1 >= r.n /\ r.kept1 /\ r.cap2 >= 3 * r.n
     /\ r.dtors2 = r.n - r.n \div 2 /\ r.size2 = r.n \div 2 /\ r.kept2
     /\ r.cap3 = r.size2 /\ r.kept3 /\ r.sorted /\ r.atend
-    /\ r.dtors = r.n /\ r.size4 = 0
+    /\ r.dtors = r.n + 8 /\ r.size4 = 0
+    \* emptied with its storage kept, then a reserve that cannot be satisfied: capacity and storage as before, still usable
+    /\ r.capE >= r.size2 /\ r.capF = r.capE /\ r.reuse
 \* C10 at 3*10^5 characters: sizes, terminator, contents against the construction rule, find, erase, substr to the end
 StrOK(r) ==
     /\ r.out = "ok" /\ r.priv
@@ -115,6 +117,10 @@ RefsOK(r) ==
 \* every index stays inside the buffer, the sole remaining user gets the buffer back
 ViewsOK(r) ==
     /\ r.out = "ok" /\ r.early = 0 /\ r.size0 = 64 /\ r.inside /\ r.late = 1 /\ r.sizeend = 0
+\* C03 / C04 / C19 after a long life: n resizes of a small table (each worked off within as many keyed operations as there
+\* are buckets), then five elements, a shrink: all found, walked once, counted, handed over by clear
+HashLifeOK(r) ==
+    /\ r.out = "ok" /\ r.found = 5 /\ r.visited = 5 /\ r.once /\ r.size = 5 /\ r.cleared = 5 /\ r.overdue = 0
 \* C03 / C04 with one chain of 5*10^5 elements under a single key, relocated by a grow and a shrink
 HashDupOK(r) ==
     /\ r.out = "ok" /\ r.priv
@@ -137,6 +143,7 @@ BigOK(r) == CASE r.op = "heapdrain" -> HeapOK(r)
               [] r.op = "refsbig" -> RefsOK(r)
               [] r.op = "viewsbig" -> ViewsOK(r)
               [] r.op = "hashdup" -> HashDupOK(r)
+              [] r.op = "hashlife" -> HashLifeOK(r)
               [] r.op = "vechuge" -> VecHugeOK(r)
               [] OTHER -> FALSE
 VARIABLE i
